@@ -71,6 +71,13 @@ source_for(const std::string &profile, const std::string &prop, int tier)
                         }
                 };
         }
+        if (profile == "scrub") {
+                // C13: one run in four goes through the direct functions and synchronous bursts (scanned right after each call)
+                ProfileCfg pe = profile_by_name("scrub_entry", prop, tier);
+                s.make = [pc, pe](uint64_t run_seed, uint64_t idx) { return (idx % 4 == 3) ? gen_plan_entry(pe, run_seed) : gen_plan(pc, run_seed); };
+        }
+        if (profile == "scrub_entry")
+                s.make = [pc](uint64_t run_seed, uint64_t) { return gen_plan_entry(pc, run_seed); };
         if (profile == "entry")
                 s.make = [pc](uint64_t run_seed, uint64_t) { return gen_plan_entry(pc, run_seed); };
         if (profile == "keyprep")
